@@ -635,6 +635,14 @@ func (fr *Frame) split(p *preCall) Val {
 		more = and(more, has)
 		rem = "(str.substr " + r + " (+ " + idx + " (str.len " + sep + ")) (- (str.len " + r + ") (+ " + idx + " (str.len " + sep + "))))"
 	}
+	// the last part, for any number of parts: it contains no separator, and the input is the join of the
+	// parts before it, the separator, and the last part (right unrolling of Join over the prefix res[:n-1],
+	// written exactly as the engine writes that sub-slice)
+	last := "(select (s_arr " + res + ") (- " + n + " 1))"
+	fc.B.Assert(implies(nonEmpty, and(
+		not("(str.contains "+last+" "+sep+")"),
+		implies("(>= "+n+" 2)", eq(s, "(str.++ (join_str (mkS false (- "+n+" 1) (s_arr "+res+")) "+sep+") "+sep+" "+last+")")),
+		eq("(>= "+n+" 2)", "(str.contains "+s+" "+sep+")"))))
 	fc.B.Note("strings.Split: parts 0..3 and the part count up to 4 are exact (first-separator unrolling); beyond that only join/no-separator facts")
 	return Val{S: "(Slice String)", T: res, Typ: types.NewSlice(types.Typ[types.String])}
 }
@@ -887,8 +895,21 @@ func (fr *Frame) applyContract(c *Contract, callee *ssa.Function, args []Val, re
 		// (its meaning is proved against the body, and is not needed/assumed at call sites)
 		return res
 	}
+	underQuant := false
+	for _, a := range args {
+		for _, x := range flatten(a) {
+			if strings.Contains(x.T, "qv!") {
+				underQuant = true
+			}
+		}
+	}
 	for _, en := range c.Ensures {
 		g := fc.evalBool(envPost, en.E)
+		if underQuant {
+			// the call occurs under a quantifier of a contract formula (an argument is a bound variable): its
+			// postcondition cannot be stated globally; leaving an assumption out is sound
+			continue
+		}
 		fc.B.Assert(implies(reach, g))
 	}
 	return res
